@@ -378,3 +378,21 @@ extend('C19', 'Also: per-method summaries instead of body comparison: the pieces
        'per-method summaries by symbolic resolution and specialisation')
 extend('C20', 'Also: the serializer rule above (positions, any order, absent vs empty containers); has_mods covers all '
               'ten fields; produced and consumed keys of pop_mods/add_mod_dict also when table-driven.', E_)
+
+
+# ---- fifth / sixth rounds (DESIGN.md 10.11, 10.12) ------------------------------------------------------------------
+N_ = 'functions that differ from the reference inventory are normalised first (sa/normalise.py: new helpers, generators, ' \
+     'records, tables and functional forms are read through; nothing is executed)'
+for _pid in ('C01', 'C02', 'C03', 'C04', 'C05', 'C07', 'C09', 'C10', 'C11', 'C12', 'C13', 'C14', 'C15', 'C16', 'C17', 'C18',
+             'C19', 'C20', 'C06', 'C08'):
+    extend(_pid, None, N_)
+extend('C02', 'Also: a parameter declared Optional[int|float] (precision, charge, ...) is only compared with None, never '
+              'used as a truth value (0 is a value); a memo key determines the memoised value.')
+extend('C09', 'Also: the scanning loop of the formula tokenizer moves its cursor for every class of the current character '
+              '(each literal it is compared with, and any other) -- decided by case analysis, the character being touched '
+              'only through comparisons.', 'case analysis over the character classes of a scanning loop')
+extend('C12', 'Also: atoms of the ion-type adjustment and of the charge carriers are added to the always-labelled '
+              'accumulator before the isotope substitution.')
+extend('C13', 'Also: a terminal form made by apply_static_mods(BASE, ..) is expanded only under a comparison with BASE; '
+              'the +1 shift of a consuming match is decided on the match whose index is yielded.')
+extend('C18', 'Also: optional numbers compared with None only; memo keys determine the memoised value.')
